@@ -74,12 +74,16 @@ def colkey_mgs(solver):
     return key
 
 
-def mgs_request(m, k):
+def mgs_request(m, k, parts="object"):
+    """parts: the partition constraints the CALLER passed (__init__ must keep every one of them, in order);
+    default: what the object holds"""
     t = [k] + qs(m.numbers) + common.qtok(m.total) + [m.weight_type == int, m.max_multiplicity]
-    if m.partition_constraints is None:
+    if isinstance(parts, str):
+        parts = m.partition_constraints
+    if parts is None:
         t += [0]
     else:
-        t += [1, len(m.partition_constraints), [qs(c) for c in m.partition_constraints]]
+        t += [1, len(parts), [qs(c) for c in parts]]
     return "mgsenc " + common.toks(t)
 
 
@@ -201,6 +205,10 @@ def decide(ctx, engine, impl, req, d):
     """E1 verdict: the Python diff `d` is cross-checked by the extracted VERIFIED checker LinEquiv.milp_equiv_b (<cmd>_eq);
     when they disagree the verified one is trusted (and the disagreement is counted and noted)."""
     import e1
+    if not impl["cols"]:
+        # degenerate LP without columns (MinGenSet at k = 0): lpdump canonicalises its constant rows (an unsatisfiable one reads
+        # 1 <= 0), which the syntactic verified checker cannot match with the model's "0 = total"; the Python diff decides
+        ctx.count(engine, "verified_equivalence_skipped_no_columns"); return d
     try:
         ve = e1.verified_equal(ctx, engine, impl, req)
     except Exception as e:
